@@ -49,7 +49,15 @@ def plans_for(prog, rnd, quick):
         cs = []
         for c in calls:
             cc = rnd.choice(call_combos)
-            cs.append(dict(c, kw={k: (CALL_VALUES[k] if on else None) for k, on in zip(("timeout", "deadline", "metadata"), cc)}))
+            kw = {k: (CALL_VALUES[k] if on else None) for k, on in zip(("timeout", "deadline", "metadata"), cc)}
+            # explicit but *falsy* per-call values still take precedence: no metadata at all ({} / [] / ()), a zero timeout
+            x = rnd.random()
+            if x < .2:
+                kw["metadata"] = rnd.choice(["<empty-dict>", "<empty-list>", "<empty-tuple>"])
+            elif x < .3 and c["mode"] == "ok":
+                kw["timeout"] = 0.0
+                kw["tzero"] = True
+            cs.append(dict(c, kw=kw))
         plans.append({"stub": stubkw, "calls": cs})
     return plans
 
@@ -82,8 +90,9 @@ def run_program(args):
             continue
         for c, rec in zip(plan["calls"], res["calls"]):
             def enc(kw):
+                md = kw["metadata"] or ""
                 return {"timeout": int(kw["timeout"] // 1000) if kw["timeout"] else 0, "deadline": int(kw["deadline"] // 1000) if kw["deadline"] else 0,
-                        "metadata": kw["metadata"] or ""}
+                        "metadata": "<empty>" if md.startswith("<empty") else md, "tzero": bool(kw.get("tzero"))}
             call = {"route": c["route"], "card": c["card"], "mode": c["mode"], "nreq": c["nreq"], "nresp": c["nresp"], "status": c["status"],
                     "pyname": safe_snake_case(c["method"]), "kw": enc(c["kw"]), "stubkw": enc(plan["stub"])}
             events.append({"imp": "ok", "call": call, "rec": rec, "case": {"protos": protos, "stub": plan["stub"], "call": c}})
@@ -92,8 +101,8 @@ def run_program(args):
 
 
 def _nocall():
-    return {"route": "", "card": "UNARY_UNARY", "mode": "ok", "nreq": 1, "nresp": 1, "status": "", "pyname": "", "kw": {"timeout": 0, "deadline": 0, "metadata": ""},
-            "stubkw": {"timeout": 0, "deadline": 0, "metadata": ""}}
+    return {"route": "", "card": "UNARY_UNARY", "mode": "ok", "nreq": 1, "nresp": 1, "status": "", "pyname": "", "kw": {"timeout": 0, "deadline": 0, "metadata": "", "tzero": False},
+            "stubkw": {"timeout": 0, "deadline": 0, "metadata": "", "tzero": False}}
 
 
 def _norec():
@@ -108,7 +117,7 @@ def run(ctx):
                 "google.protobuf request / response types, two services sharing a method name; plus services of the C03 program generator): "
                 "every method x handler {overridden ok, overridden raising GRPCError(status), not overridden} x request stream length 0..2 x "
                 "response stream length 0..2 x sync / async request source x stub-level and call-level timeout / deadline / metadata in "
-                "{None, set}; each call is made in-process over grpclib.testing.ChannelFor; non-trivial = streaming or non-default kwargs")
+                "{None, set} and call-level explicit empty metadata ({} / [] / ()) / zero timeout; each call is made in-process over grpclib.testing.ChannelFor; non-trivial = streaming or non-default kwargs")
     ctx.assumptions = ["grpclib 0.4.9 in-process channel (grpclib.testing.ChannelFor) as transport",
                        "the deadline seen by the server is compared in units of 1000 s (call 7000/9000 s, stub 5000/3000 s), so timing jitter cannot matter"]
     ctx.mc("Grpc", MC_CFG, name="Grpc", coverage=True, expect_actions=("Issue", "Invoke", "Deliver", "Answer", "Finish"))
@@ -134,5 +143,9 @@ def run(ctx):
     ctx.sample({"call": events[5]["call"], "record": events[5]["rec"]})
     ctx.notes["programs"] = len(cases)
     ctx.notes["calls"] = len(events)
+    ctx.notes["calls_with_explicit_empty_metadata"] = sum(1 for e in events if e["call"]["kw"]["metadata"] == "<empty>")
+    ctx.notes["calls_with_zero_timeout"] = sum(1 for e in events if e["call"]["kw"]["tzero"])
+    if not ctx.notes["calls_with_explicit_empty_metadata"] or not ctx.notes["calls_with_zero_timeout"]:
+        raise common.MachineryError("vacuity: no call with an explicit empty metadata / zero timeout was made")
     ctx.notes["disagreements_checked"] = len(events)
     ctx.validate("Trace_Grpc", events, shard=500)
